@@ -48,7 +48,7 @@ meta={"seed":id,"breaks_property":prop,"origin":"independent sub-agent given onl
  "needs_to_manifest":notes[:3000],
  "confirmed":{"demo_exit_unchanged":int(d0),"demo_exit_with_change":int(d1),"suite_with_change":suite,
    "how":"bin/seedtest.sh: scratch worktree of /repo HEAD, demo built against sources with and without patch.diff, bin/baseline_off.sh on the patched worktree"},
- "check":{"cmd":"bin/vcheck %s --tier "+os.environ.get("TIER","quick")+"  (run against a scratch worktree of /repo HEAD with patch.diff applied)"%prop,"exit":int(ck),"violation_lines":int(nv),"violation_classes":classes},
+ "check":{"cmd":"bin/vcheck "+prop+" --tier "+os.environ.get("TIER","quick")+" (run against a scratch worktree of /repo HEAD with patch.diff applied)","exit":int(ck),"violation_lines":int(nv),"violation_classes":classes},
  "detected": int(ck)==1 and int(nv)>0}
 json.dump(meta,open(out+'/meta.json','w'),indent=1)
 print("detected:",meta["detected"])
